@@ -158,8 +158,10 @@ ServerOp(st, e, i) ==
       [] e.s = "wait" -> [st EXCEPT !.sawCx = (st.cx = "Canceled")]
       \* a handler that returns without having seen the end of the context may still get its
       \* status through before the client side has processed the cancellation
-      [] e.s = "return" -> IF st.sawCx THEN [st EXCEPT !.ret = TRUE, !.rcode = e.code, !.rv = e.v]
-                           ELSE [Flush(st) EXCEPT !.ret = TRUE, !.rcode = e.code, !.rv = e.v, !.retAtCx = ~st.term.has]
+      [] e.s = "return" ->
+           IF st.sawCx THEN [st EXCEPT !.ret = TRUE, !.rcode = e.code, !.rv = e.v]
+           ELSE LET f == [Flush(st) EXCEPT !.ret = TRUE, !.rcode = e.code, !.rv = e.v, !.retAtCx = ~st.term.has] IN
+                IF st.shape \in {"unary", "ustream"} /\ e.code = "OK" THEN [f EXCEPT !.resp = e.v, !.ssent = Append(@, e.v)] ELSE f
       [] OTHER -> st
 
 \* a pending op completes as soon as what it waits for is there
